@@ -104,7 +104,9 @@ def run(F, chk):
         rc.fn(b.path)
         route_calls = [bi for bi, t in b.calls() if callee_of(t).endswith("::frontend_from_request") or t.get("fn", "").endswith("::frontend_from_request")]
         filt = [(bi, t) for bi, t in b.calls() if t.get("fn") == "core::option::Option::<T>::filter"]
-        matched = b.named_local("matched")
+        # the authority-vs-certificate verdict: the Option local(s) written by the call to authority_matched_cert_name
+        matched = sorted({l for l, ds in b.defs().items() for d in ds
+                          if d[2] == "call" and d[3].get("fn", "").endswith("::authority_matched_cert_name")})
         if rc.require(route_calls and filt and matched, "route_from_request: frontend_from_request / Option::filter / `matched` not found"):
             sni_opt = filt[0][1]["dest"]
             sw = discr_switches(b, sni_opt)
